@@ -240,6 +240,17 @@ func Check(p *lp.Program) string {
 		return fmt.Sprintf("destinations: %d (binary) vs %d (JSON)", len(res.Dests), len(jo.Dests))
 	}
 	for d := range res.Dests {
+		// the whole destination stream decoded in one go must equal the events decoded one by one
+		var stream, one, whole bytes.Buffer
+		for _, w := range res.Dests[d] {
+			stream.Write(w.Data)
+			if err := zerolog.VerifCbor2JsonManyObjects(bytes.NewReader(w.Data), &one); err != nil {
+				return fmt.Sprintf("decoder returned error %v for the logger's own output %q", err, w.Data)
+			}
+		}
+		if err := zerolog.VerifCbor2JsonManyObjects(bytes.NewReader(stream.Bytes()), &whole); err != nil || !bytes.Equal(whole.Bytes(), one.Bytes()) {
+			return fmt.Sprintf("destination %d: the %d-byte stream of %d events decodes differently as a whole (err=%v, %d bytes) than event by event (%d bytes)", d, stream.Len(), len(res.Dests[d]), err, whole.Len(), one.Len())
+		}
 		if len(res.Dests[d]) != len(jo.Dests[d]) {
 			return fmt.Sprintf("destination %d: %d events (binary build) vs %d (JSON build)", d, len(res.Dests[d]), len(jo.Dests[d]))
 		}
